@@ -147,6 +147,20 @@ Theorem C09_v0_transfer_marks_for_v1 : forall k,
 Proof. exact v0_transfer_marks_for_v1. Qed.
 Print Assumptions C09_v0_transfer_marks_for_v1.
 
+(* an OFFER answered without a free inbound slot starts no transfer: it neither marks nor un-marks anything - in
+   particular it does not wipe the marks of other pending transfers whose keys it offers (a version-0 offer always has
+   such keys among its candidates, the v0 filter ignores the marks) *)
+Theorem C09_rate_limited_offer_keeps_marks : forall sync s keys,
+  rx_marked (rx_step sync s (EvOfferNoSlot keys)) = rx_marked s.
+Proof. exact rate_limited_offer_keeps_marks. Qed.
+Print Assumptions C09_rate_limited_offer_keeps_marks.
+
+Theorem C09_rate_limited_scenario : forall k,
+  rx_accepted (rx_run false [EvOffer [k]; EvGoroutineRuns 0; EvOfferNoSlot [k]; EvOffer [k]]) = [[]; []; [k]] /\
+  rx_accepted (rx_run false [EvOfferV0 [k]; EvGoroutineRuns 0; EvOfferNoSlot [k]; EvOffer [k]]) = [[]; []; [k]].
+Proof. exact rate_limited_scenario. Qed.
+Print Assumptions C09_rate_limited_scenario.
+
 (* the three-offer scenario the harness plays on the real code (newest offer first): O1 [K] accepted and stalled, O2 [K;L]
    -> [in progress; accepted] and finished, O3 [K] -> in progress, O1 finishes, O4 [K] -> accepted *)
 Theorem C09_three_offer_scenario :
